@@ -141,6 +141,9 @@ func c12Gen(tier string, emit func(c12Case)) {
 	}
 	n := 0
 	c01Gen(tier, func(cs c01Case) {
+		if cs.Fam == "atoms" {
+			return // the atom catalogue builds its own graphs; its reports are single-trace and add nothing here
+		}
 		n++
 		if cs.Fam == "prop" {
 			small := true
